@@ -241,6 +241,7 @@ def fsrcOf (j : Json) : FSrc :=
   match jstr j "t" with
   | "num" => .num (jstr j "name") (colOf (jval j "vals"))
   | "one" => .one (jnat j "nrows")
+  | "scalar" => .scalar (jstr j "name") (ratOfString (jstr j "val")) (jnat j "nrows")
   | _ => .cat (jstr j "name") ((jarr j "vals").map optStr) (strs j "levels") (jbool j "reduced")
 
 def stermOf (j : Json) : STerm := ⟨ratOfString (jstr j "scale"), (jarr j "factors").map fsrcOf⟩
